@@ -51,6 +51,12 @@ type schedCase struct {
 	// the schedule, so everything published to them goes through the real mergeCollectionExcess goroutine and
 	// is merged there; model `lsched`: the streams the merge machine can emit for what the subscriber was sent
 	Lossy bool `json:"lossy,omitempty"`
+	// Ghosts (with Split): before the scheduler's choice number Ghosts[i] a GHOST subscribes - a plain Pull whose
+	// context is cancelled as soon as it has registered: a dead listener the bus has not collected yet.  The next
+	// Send finds it in its copy of the listener slice (it is not sent the event; needGc) and runs Bus.collect when
+	// its loop is over - while, Send being taken apart, other subscribers register in between; model `gsched`
+	// (ScVerif/C08/SubscribeGc.lean: b.listeners, cancel, collect)
+	Ghosts []int `json:"ghosts,omitempty"`
 }
 
 func (c schedCase) preds() []pred {
@@ -68,6 +74,8 @@ type subObs struct {
 	// Stale: the ids with a commit still unpublished at the moment this subscriber registered (its seed
 	// contains those commits, and their events reach it afterwards all the same)
 	Stale []string `json:"stale,omitempty"`
+	// NoFence: the closing fence write's event did not reach this (registered, live) subscriber in time
+	NoFence bool `json:"no_fence,omitempty"`
 }
 
 type schedObs struct {
@@ -81,6 +89,10 @@ type schedObs struct {
 	// many of them were pending when the subscriber registered (they are in its seed and reach it anyway)
 	MaxPending    int `json:"max_pending"`
 	StaleAtListen int `json:"stale_at_listen"`
+	// Gc: the schedule ran with the model that has b.listeners / cancel / collect; Collects: how often Bus.collect
+	// ran during the schedule (yield point bus.collect.scanned)
+	Gc       bool `json:"gc,omitempty"`
+	Collects int  `json:"collects,omitempty"`
 }
 
 func (o schedObs) answer() string {
@@ -94,12 +106,19 @@ func (o schedObs) answer() string {
 		}
 		return strings.Join(parts, " # ") + " | pend=0"
 	}
-	if len(o.Per) == 1 && !o.Split {
+	if len(o.Per) == 1 && !o.Split && !o.Per[0].NoFence {
 		return "seed=" + showChanges(o.Per[0].Seed) + " recv=" + showChanges(o.Per[0].Recv) + " list=" + o.Per[0].List + " pend=0 sub=listen"
 	}
 	var parts []string
 	for _, p := range o.Per {
-		parts = append(parts, "seed="+showChanges(p.Seed)+" recv="+showChanges(p.Recv)+" list="+p.List+" sub=listen")
+		recv := showChanges(p.Recv)
+		if p.NoFence {
+			recv += ";!fence-not-delivered"
+		}
+		parts = append(parts, "seed="+showChanges(p.Seed)+" recv="+recv+" list="+p.List+" sub=listen")
+	}
+	if o.Gc {
+		return strings.Join(parts, " # ") + fmt.Sprintf(" | pend=0 flight=0 collects=%d", o.Collects)
 	}
 	if o.Split {
 		return strings.Join(parts, " # ") + " | pend=0 flight=0"
@@ -118,6 +137,9 @@ func (c schedCase) driverLine(o schedObs) string {
 	}
 	if c.Lossy {
 		opn = "lsched"
+	}
+	if o.Gc {
+		opn = "gsched"
 	}
 	toks := []string{opn, fmt.Sprint(len(c.preds()))}
 	for _, p := range c.preds() {
@@ -160,6 +182,7 @@ func (c schedCase) run() (o schedObs) {
 	defer cancel()
 
 	var writers sync.Map // goroutine id -> *pendingWrite
+	var collects atomic.Int64
 	preds := c.preds()
 	subs := make([]*schedSub, len(preds))
 	for k := range subs {
@@ -186,6 +209,8 @@ func (c schedCase) run() (o schedObs) {
 				pw.parked <- struct{}{}
 				<-pw.step
 			}
+		case "bus.collect.scanned":
+			collects.Add(1)
 		case "coll.onUpdate.beforeListen":
 			gid := verifhook.GoID()
 			for _, sb := range subs {
@@ -310,6 +335,28 @@ func (c schedCase) run() (o schedObs) {
 		return o
 	}
 	o.Split, o.Lossy = c.Split, c.Lossy
+	o.Gc = c.Split && len(c.Ghosts) > 0
+	nGhosts := 0
+	// a ghost: a plain Pull (seed and Listen under the read lock; the hook lets it through) whose context is
+	// cancelled at once; its channel closes once its forwarding goroutine has gone - from then on nothing receives
+	// from its listener, so every later Send finds it inactive
+	addGhost := func() bool {
+		gctx, gcancel := context.WithCancel(ctx)
+		gch := col.Pull(gctx, resource.WithBackpressure(true))
+		gcancel()
+		limit := time.NewTimer(fenceTimeout)
+		defer limit.Stop()
+		for {
+			select {
+			case _, ok := <-gch:
+				if !ok {
+					return true
+				}
+			case <-limit.C:
+				return false
+			}
+		}
+	}
 	var flight *pendingWrite           // (Split) the write whose Bus.Send has copied the listener slice and is parked before a listener
 	maxPending := 1 + len(c.Choices)%2 // one or two writer threads with unpublished commits at a time
 
@@ -321,6 +368,16 @@ func (c schedCase) run() (o schedObs) {
 	fallback := map[int][]int{0: {0, 2, 1, 3}, 2: {2, 1, 3, 0}, 1: {1, 3, 0, 2}, 3: {3, 1, 0, 2}}
 	choice := 0
 	for len(prog) > 0 || len(queue) > 0 || flight != nil || blocked != nil || !allListening() {
+		for _, at := range c.Ghosts {
+			// (a Pull needs the read lock: not while a write waits for the write lock, sync.RWMutex keeps new readers out)
+			if o.Gc && at == choice && blocked == nil {
+				if !addGhost() {
+					return problem("the Pull of a cancelled subscriber did not end within the time limit")
+				}
+				o.Steps = append(o.Steps, fmt.Sprintf("g=%d", len(subs)+nGhosts))
+				nGhosts++
+			}
+		}
 		ch := choice % nch
 		if choice < len(c.Choices) {
 			ch = c.Choices[choice] % nch
@@ -356,6 +413,7 @@ func (c schedCase) run() (o schedObs) {
 		switch picked {
 		case 2:
 			if c.Split {
+				c0 := int(collects.Load())
 				if flight == nil {
 					pw := queue[0]
 					queue = queue[1:]
@@ -380,6 +438,10 @@ func (c schedCase) run() (o schedObs) {
 						return problem("Send of " + flight.op + " did not get past a listener within the time limit")
 					}
 					o.Steps = append(o.Steps, "pn")
+					if int(collects.Load()) > c0 {
+						// the Send's loop is over and it has run Bus.collect before returning
+						o.Steps = append(o.Steps, "gc")
+					}
 				}
 				break
 			}
@@ -471,6 +533,7 @@ func (c schedCase) run() (o schedObs) {
 		}
 	}
 	verifhook.Set(nil)
+	o.Collects = int(collects.Load())
 	o.Per = make([]subObs, len(subs))
 	for k := range subs {
 		o.Per[k].List = listWithInclude(col, preds[k])
@@ -488,7 +551,8 @@ func (c schedCase) run() (o schedObs) {
 		select {
 		case <-sb.fenceSeen:
 		case <-time.After(fenceTimeout):
-			o.Problem = "fence not delivered within the time limit"
+			// a registered subscriber whose context is live was not sent the ADD of the fence item
+			o.Per[k].NoFence = true
 		}
 		sb.mu.Lock()
 		for _, ev := range sb.events {
@@ -529,6 +593,10 @@ func (c schedCase) monitor(m sink, o schedObs) {
 	if c.Lossy {
 		pre = "C08/sched/lossy/"
 	}
+	if o.Gc {
+		pre += "cancelled-listeners/"
+		m.Count(fmt.Sprintf("schedules with cancelled, uncollected listeners on the bus: collect ran %d time(s)", o.Collects))
+	}
 	for k, p := range c.preds() {
 		if k >= len(o.Per) {
 			break
@@ -547,6 +615,9 @@ func (c schedCase) monitor(m sink, o schedObs) {
 		}
 		vf := &viewFold{view: view}
 		want := sh.filtered(p, "")
+		if o.Per[k].NoFence {
+			m.Violate(pre+"registered-subscriber-not-sent-event", "a subscriber that had registered (Pull returned, context live) was not sent the ADD of an item matching its predicate, published afterwards: the bus no longer delivers to it", c, "the fence item's ADD within the time limit", "not delivered; received before: "+showChanges(o.Per[k].Recv))
+		}
 		if got := vf.String(); got != want && c.Lossy && onlyStaleDiffer(got, want, o.Per[k].Stale) {
 			// the only ids that differ had a commit unpublished when the subscriber registered: the event of a
 			// commit its seed already contains was merged with later events of the id by the lossy machine
@@ -684,6 +755,21 @@ func genSched(r *rand.Rand) schedCase {
 			c.Choices = []int{1, 1, 0, 2, 3, 3, 2}
 		}
 	}
+	if c.Split && r.Intn(2) == 0 {
+		// cancelled, uncollected listeners on the bus: one or two ghosts, before the first steps or a little later
+		c.Ghosts = []int{r.Intn(2) * r.Intn(4)}
+		if r.Intn(3) == 0 {
+			c.Ghosts = append(c.Ghosts, r.Intn(6))
+		}
+		if r.Intn(2) == 0 {
+			c.Ghosts[0] = 0
+			if c.Pred2 == nil {
+				// a commit's Send copies the listener slice (the ghost alone), then the subscriber takes its seed and
+				// registers, then the Send finds the ghost dead and collects
+				c.Choices = []int{0, 2, 1, 1, 2}
+			}
+		}
+	}
 	if !c.Split && r.Intn(4) == 0 {
 		c.Lossy = true
 	}
@@ -730,7 +816,7 @@ func acceptStreams(ans string, o schedObs) string {
 
 func runSched(f lib.Flags, res *lib.Result, drv *lib.Driver) {
 	tie := res.Tie("subscribe-schedules", "K4",
-		"schedules of the concurrent subscribe model executed on a real Collection through the yield points coll.update.beforeSend (a writer committed, not yet published) and coll.onUpdate.beforeListen (subscriber computed its seed, read lock held): 1-6 writes (Add/Update/Upsert/Delete incl. failing ones) over 1-2 ids x 2 values, each in its own writer goroutine, up to two of them committed and unpublished at a time, publications released in commit order, interleaved with Pull(WithInclude p, WithBackpressure(true))'s snapshot and listen steps - at random after a fixed prefix (commits pending at the snapshot; a write started under the subscriber's lock; both; none); a third of the schedules have a SECOND subscriber with a predicate of its own on the same collection (model `msched`, ScVerif/C08/SubscribeMany.lean: both may hold the read lock together, a write gets through only when neither does, a publication reaches whichever of them listen); in a third Bus.Send is taken apart through the yield point bus.send.beforeListener (model `fsched`, ScVerif/C08/SubscribeSend.lean: the Send copies the listener slice, then hands the event to the listeners of the copy one by one, other threads moving in between - a subscriber registering after the copy is not sent the event); a quarter of the others have LOSSY subscribers (WithBackpressure(false), nothing read before the end of the schedule: everything sent to them is merged by the real mergeCollectionExcess goroutine; model `lsched`: the delivered stream must be one of the streams the merge machine can emit for what the model's subscriber was sent); thorough adds every choice sequence of length 5 for four small programs x three predicates, with two subscribers every sequence of 5 choices out of 4 for two programs, with Bus.Send taken apart every sequence of 6 choices out of 4, and with a lossy subscriber every sequence of 6 choices out of 3 under three predicates; a write started while the subscriber holds the lock must block (model: step disabled) and is re-issued after listen; at the end the delivered seed, the delivered events and List(WithInclude p) are compared with the model's `sched` answer for the executed schedule; non-trivial = predicate not nil; distinct = (predicate, initial writes, executed steps)")
+		"schedules of the concurrent subscribe model executed on a real Collection through the yield points coll.update.beforeSend (a writer committed, not yet published) and coll.onUpdate.beforeListen (subscriber computed its seed, read lock held): 1-6 writes (Add/Update/Upsert/Delete incl. failing ones) over 1-2 ids x 2 values, each in its own writer goroutine, up to two of them committed and unpublished at a time, publications released in commit order, interleaved with Pull(WithInclude p, WithBackpressure(true))'s snapshot and listen steps - at random after a fixed prefix (commits pending at the snapshot; a write started under the subscriber's lock; both; none); a third of the schedules have a SECOND subscriber with a predicate of its own on the same collection (model `msched`, ScVerif/C08/SubscribeMany.lean: both may hold the read lock together, a write gets through only when neither does, a publication reaches whichever of them listen); in a third Bus.Send is taken apart through the yield point bus.send.beforeListener (model `fsched`, ScVerif/C08/SubscribeSend.lean: the Send copies the listener slice, then hands the event to the listeners of the copy one by one, other threads moving in between - a subscriber registering after the copy is not sent the event); half of those have GHOSTS (plain Pulls cancelled as soon as they have registered, before the first step or a little later: dead listeners the bus has not collected; model `gsched`, ScVerif/C08/SubscribeGc.lean: b.listeners, cancel, a Send skipping and remembering dead listeners, Bus.collect as a step observed through the yield point bus.collect.scanned - the number of collects is part of the answer; fixed prefixes make a subscriber register between a Send's copy of the listener slice and its collect); a quarter of the others have LOSSY subscribers (WithBackpressure(false), nothing read before the end of the schedule: everything sent to them is merged by the real mergeCollectionExcess goroutine; model `lsched`: the delivered stream must be one of the streams the merge machine can emit for what the model's subscriber was sent); thorough adds every choice sequence of length 5 for four small programs x three predicates, with two subscribers every sequence of 5 choices out of 4 for two programs, with Bus.Send taken apart every sequence of 6 choices out of 4, and with a lossy subscriber every sequence of 6 choices out of 3 under three predicates; a write started while the subscriber holds the lock must block (model: step disabled) and is re-issued after listen; at the end the delivered seed, the delivered events and List(WithInclude p) are compared with the model's `sched` answer for the executed schedule; non-trivial = predicate not nil; distinct = (predicate, initial writes, executed steps)")
 	mon := res.Monitor("subscribe-fold", "on the same schedules, independent of the model: at the quiescent end, for every subscriber, fold(seed ++ delivered events) = List(WithInclude p) = the filtered plain map; distinct = (predicate, initial writes, executed steps)")
 	r := lib.NewRand(f.Seed + 13)
 	n := f.N(150, 1500)
@@ -797,6 +883,29 @@ func runSched(f lib.Flags, res *lib.Result, drv *lib.Driver) {
 			cases = append(cases, c)
 		}
 	}
+	stuck := 0
+	if f.Thorough() {
+		// cancelled, uncollected listeners: a ghost registered before everything else (and a second one after the
+		// third choice), Bus.Send taken apart: every sequence of 6 choices out of 3 with one subscriber under two
+		// predicates, every sequence of 5 out of 4 with two subscribers
+		for _, mask := range []uint64{2, 4} {
+			for code := 0; code < 729; code++ {
+				c := schedCase{Kind: "sched", Pred: pred{Ids: []string{"a"}, Vals: vals2, Mask: mask}, Init: []string{"add:a:x"}, Prog: []string{"upd:a:y", "upd:a:x"}, Split: true, Ghosts: []int{0, 3}}
+				for k, x := 0, code; k < 6; k, x = k+1, x/3 {
+					c.Choices = append(c.Choices, x%3)
+				}
+				cases = append(cases, c)
+			}
+		}
+		for code := 0; code < 1024; code++ {
+			p2 := pred{Ids: []string{"a"}, Vals: vals2, Mask: 4}
+			c := schedCase{Kind: "sched", Pred: pred{Ids: []string{"a"}, Vals: vals2, Mask: 2}, Pred2: &p2, Init: []string{"add:a:x"}, Prog: []string{"upd:a:y", "del:a"}, Split: true, Ghosts: []int{0}}
+			for k, x := 0, code; k < 5; k, x = k+1, x/4 {
+				c.Choices = append(c.Choices, x%4)
+			}
+			cases = append(cases, c)
+		}
+	}
 	for _, c := range cases {
 		var first schedObs
 		runs := 0
@@ -813,6 +922,44 @@ func runSched(f lib.Flags, res *lib.Result, drv *lib.Driver) {
 		if err != nil {
 			tie.Fail(err)
 			return
+		}
+		if k := strings.Index(ans, " listeners="); k >= 0 {
+			ans = ans[:k] // (b.listeners itself is not observable from outside the bus)
+		}
+		lost := first.Problem != ""
+		for _, p := range first.Per {
+			lost = lost || p.NoFence
+		}
+		if lost {
+			// every such schedule costs two waits (the run and its confirmation): shorten them from now on
+			stuck++
+			stuckSeen++
+			fenceTimeout = stuckTimeout
+			if tooManyStuck(stuck) {
+				tie.Fail(fmt.Errorf("aborted after %d schedules in which a step or the closing fence did not come through within the time limit", stuck))
+				return
+			}
+		}
+		if first.Gc {
+			tie.Count("schedules with cancelled, uncollected listeners (ghosts) on the bus")
+			joined := false
+			for i, st := range first.Steps {
+				if st != "ps" {
+					continue
+				}
+				for _, st2 := range first.Steps[i+1:] {
+					if st2 == "gc" || st2 == "ps" {
+						if st2 == "gc" && joined {
+							tie.Count("schedules in which a subscriber registered between a Send's copy of the listeners and its collect")
+						}
+						break
+					}
+					if strings.HasPrefix(st2, "l=") {
+						joined = true
+					}
+				}
+				joined = false
+			}
 		}
 		if c.Lossy {
 			ans = acceptStreams(ans, first)
